@@ -16,9 +16,8 @@ Definition placeholder (raw : string) : option (string * string) :=
         match find_next c_rbrace body with
         | FFound inside EmptyString =>
             match split_colon inside with
-            | Some (FFound n d) => Some (n, d)
-            | Some (FNone n) => Some (n, "")
-            | None => None
+            | FFound n d => Some (n, d)
+            | FNone n => Some (n, "")
             end
         | _ => None
         end
@@ -50,7 +49,7 @@ Proof.
   change (aeqb c_lbrace c_lbrack) with false. rewrite aeqb_refl. unfold brace_body.
   cbn [ph_body_ok] in Hb. rewrite (HE body Hb). cbn [xbind].
   destruct (find_next c_rbrace body) as [inside after|]; [|discriminate]. destruct after; [|discriminate].
-  destruct (split_colon inside) as [[n' d'|n']|]; [| |discriminate]; inversion Hp; subst; cbn [xbind];
+  destruct (split_colon inside) as [n' d'|n']; inversion Hp; subst; cbn [xbind];
     rewrite app_empty_r; exact (xbind_ok _).
 Qed.
 
@@ -292,7 +291,7 @@ Qed.
 Lemma unregistered_rejected :
   forall ex arg0 pco args p, p_unreg p <> [] ->
     exists e, app_argv ex arg0 pco args p = inr e /\
-              (e = RLateUnknown \/ e = RExpandLoop \/ e = RExpandCrash).
+              (e = RLateUnknown \/ e = RExpandLoop).
 Proof.
   intros ex arg0 pco args p H. unfold app_argv.
   destruct (cmd_line_status ex arg0 args p); [|eexists; split; [reflexivity|tauto]..].
